@@ -96,13 +96,18 @@ class Case:
         return ("%s %s %d %s\n" % (self.cmd, self.id, len(body), fl)).encode("utf-8") + body + b"\n"
 
 
-def _run_shard(cases, workdir, shard_no, timeout_per_shard, env=None):
+def _run_shard(cases, workdir, shard_no, timeout_per_shard, env=None, max_hangs=None):
     """Feed `cases` to one probe process (restarting after a death or a hang).
-    Returns {id: result-dict}."""
+    Returns {id: result-dict}. After `max_hangs` hangs the remaining cases are skipped."""
     results = {}
     pos = 0
     attempt = 0
+    hangs = 0
     while pos < len(cases):
+        if max_hangs is not None and hangs >= max_hangs:
+            for c in cases[pos:]:
+                results[c.id] = {"id": c.id, "outcome": "skipped"}
+            break
         attempt += 1
         chunk = cases[pos:]
         inp = os.path.join(workdir, "in-%d-%d" % (shard_no, attempt))
@@ -143,6 +148,7 @@ def _run_shard(cases, workdir, shard_no, timeout_per_shard, env=None):
         if begun is not None and begun in ids:
             k = ids.index(begun)
             if timed_out:
+                hangs += 1
                 results[begun] = {"id": begun, "outcome": "hang", "stage": "?"}
             else:
                 results[begun] = {"id": begun, "outcome": "died", "stage": "?", "rc": rc}
@@ -168,7 +174,7 @@ def _run_shard(cases, workdir, shard_no, timeout_per_shard, env=None):
     return results
 
 
-def run_cases(cases, shards=None, timeout=None, env=None):
+def run_cases(cases, shards=None, timeout=None, env=None, max_hangs=None):
     """Run probe cases on up to `shards` worker processes. Returns {id: result}."""
     if not cases:
         return {}
@@ -181,7 +187,7 @@ def run_cases(cases, shards=None, timeout=None, env=None):
     try:
         def one(i):
             t = timeout or (60 + 0.02 * len(buckets[i]))
-            return _run_shard(buckets[i], work, i, t, env)
+            return _run_shard(buckets[i], work, i, t, env, max_hangs)
         out = {}
         with ThreadPoolExecutor(max_workers=shards) as ex:
             for r in ex.map(one, range(shards)):
